@@ -9,10 +9,10 @@ def fmt(v):
     return ",".join(str(x) for x in v) if v else "-"
 
 
-def build(ctx):
+def build(ctx, alt=False):
     R = core.REPO
-    return ctx.cxx("drv_text", ["drv_text.cpp", R + "/igris/util/string.cpp", R + "/igris/string/replace.cpp", R + "/igris/string/replace_substrings.c",
-                                R + "/igris/string/memmem.c", R + "/igris/shell/mshell.c", R + "/igris/shell/rshell.c"])
+    return ctx.cxx("drv_text" + ("_alt" if alt else ""), ["drv_text.cpp", R + "/igris/util/string.cpp", R + "/igris/string/replace.cpp", R + "/igris/string/replace_substrings.c",
+                                R + "/igris/string/memmem.c", R + "/igris/shell/mshell.c", R + "/igris/shell/rshell.c"], alt=alt)
 
 
 def call(fn, s, a=(), b=(), n=0):
@@ -121,6 +121,11 @@ def check(ctx):
     ctx.samples.append({"calls": [script[1], script[len(script) // 2], script[-1]]})
     t = ctx.drive(drv, script, "text")
     bad = ctx.judge("TextUtilTrace", [t], shards=16)
+    # the second build configuration (size-optimised, plain char unsigned) on part of the executions
+    ta = ctx.drive(build(ctx, alt=True), core.subset_executions(script, ctx.seed, 1.0 if ctx.thorough else 0.34), "text_alt")
+    bada = ctx.judge("TextUtilTrace", [ta], shards=16)
+    for b in bada: b["driver"] = "drv_text@alt"
+    bad += bada
     for b in bad: b["driver"] = "drv_text"
     ctx.report(bad)
     ctx.assumptions += [
@@ -134,7 +139,7 @@ def check(ctx):
 
 def replay(ctx, path):
     d = json.load(open(path))
-    drv = build(ctx)
+    drv = build(ctx, alt=core.is_alt(d))
     e = d["event"]
     if e.get("e") == "Fault":
         return core.replay_fault(ctx, d, drv, "TextUtilTrace", path)
